@@ -77,7 +77,13 @@ func runC09P(r *simkit.Run, c Cfg) {
 		r.Violate("c09.setup", "NewReceiver: %v", err)
 		return
 	}
-	sndS := must(p2psender.New(pw.send, topicName))
+	stopic, scancel, err := gossiptopic.MakeTopic(pw.send, topicName)
+	if err != nil {
+		r.Violate("c09.setup", "MakeTopic: %v", err)
+		return
+	}
+	defer scancel()
+	sndS := must(p2psender.New(nil, "", p2psender.WithTopic(stopic)))
 	ttopic, tcancel, err := gossiptopic.MakeTopic(thost, topicName)
 	if err != nil {
 		r.Violate("c09.setup", "MakeTopic: %v", err)
@@ -103,9 +109,26 @@ func runC09P(r *simkit.Run, c Cfg) {
 			}
 		}
 	}()
-	for i := 0; i < 5; i++ {
+	ready := false
+	knows := func(ps []peer.ID, who peer.ID) bool {
+		for _, p := range ps {
+			if p == who {
+				return true
+			}
+		}
+		return false
+	}
+	for i := 0; i < 20; i++ { // fixed length: the start time of the workload must not depend on gossipsub internals
 		r.Advance(time.Second)
 		r.Quiesce()
+		ready = knows(stopic.ListPeers(), pw.recv.ID()) && knows(ttopic.ListPeers(), pw.recv.ID())
+	}
+	if !ready {
+		r.Logf("~cfg", "gossip mesh did not form: run skipped")
+		r.PassThrough(true)
+		rc.Close()
+		r.MarkEnd()
+		return
 	}
 	ncids := tp.Range(3, 12, "ncids")
 	cids := make([]cid.Cid, ncids)
